@@ -208,6 +208,23 @@ def r3(ctx):
 
 
 # ----------------------------------------------------------- validator truth tables
+def _bnorm(t):
+    """conditionals between truth values spelt out: bool(ite(c, a, b)) is (c and a) or (not c and b) — the evaluator's form of
+    a helper written with guard clauses (`if not isscalar(v): return False` ...)"""
+    if isinstance(t, App) and t.name in ('bool', 'call:bool') and len(t.args) == 1 and isinstance(t.args[0], (Ite, BoolT, Cmp)):
+        return _bnorm(t.args[0])
+    if isinstance(t, BoolT) and t.op == 'truthy' and len(t.args) == 1 and isinstance(t.args[0], (Ite, BoolT, Cmp)):
+        return _bnorm(t.args[0])
+    if isinstance(t, Ite):
+        c, a, b = _bnorm(t.cond), _bnorm(t.a), _bnorm(t.b)
+        return BoolT('or', (BoolT('and', (c, a)), BoolT('and', (BoolT('not', (c,)), b))))
+    if isinstance(t, BoolT) and t.op in ('and', 'or', 'not', 'xor'):
+        return BoolT(t.op, tuple(_bnorm(x) for x in t.args))
+    if isinstance(t, Cmp) and t.op in ('!=', 'isnot', 'notin'):
+        return BoolT('not', (Cmp({'!=': '==', 'isnot': 'is', 'notin': 'in'}[t.op], t.lhs, t.rhs),))
+    return t
+
+
 def _atoms(t, out):
     if isinstance(t, BoolT) and t.op in ('and', 'or', 'not', 'xor'):
         for a in t.args:
@@ -263,7 +280,7 @@ def r4(ctx):
         v = Obj('value', {}, 'value')
         v.typed = False
         out = ev.run(f, [s, v], {})
-        conds = [ev.conj(pc) for pc, n, _ in out.raises]
+        conds = [_bnorm(ev.conj(pc)) for pc, n, _ in out.raises]
         names = {n for pc, n, _ in out.raises}
         atoms = {}
         for c in conds:
